@@ -339,12 +339,16 @@ impl LightClientProtocol {
         debug!("fork to number: {}", to_number);
         let mut matched_blocks = self.peers.matched_blocks().write().expect("poisoned");
         let mut start_number_opt = None;
-        while let Some((start_number, _, _)) = self.storage.get_latest_matched_blocks() {
+        while let Some((start_number, blocks_count, _)) = self.storage.get_latest_matched_blocks() {
             if start_number > to_number {
                 debug!("remove matched blocks start from: {}", start_number);
                 self.storage.remove_matched_blocks(start_number);
             } else {
-                start_number_opt = Some(start_number);
+                // A record whose whole range is not after the fork number only has blocks of the
+                // common chain, nothing of its range has to be filtered again.
+                if start_number + blocks_count > to_number + 1 {
+                    start_number_opt = Some(start_number);
+                }
                 break;
             }
         }
